@@ -374,7 +374,7 @@ def main(tier, seed):
     else:
         K, max_paths, nrand = 4, 400, 1200
     progs += small
-    g = pg.ProgGen(rng, max_ops=8 if tier == "quick" else 12, lookups=True)
+    g = pg.ProgGen(rng, max_ops=8 if tier == "quick" else 12, lookups=True, bare_conditions=True)
     for i in range(nrand):
         progs.append(g.program(i))
     items = [{"progs": p, "modes": ["max_steps", "t_end"], "K": K, "max_paths": max_paths}
